@@ -4,32 +4,42 @@ afterwards) and refreshes meta.json; prints a markdown table for DESIGN.md."""
 import json, os, subprocess, sys, glob, time
 rows = []
 only = sys.argv[1:]
+LANE = os.environ.get("LANE")          # a scratch copy of /verif: run against a scratch worktree instead of /repo
+WT = "/tmp/mut/ALL"
+if LANE:
+    if not os.path.isdir(WT):
+        subprocess.run(["git", "-C", "/repo", "worktree", "add", "--detach", WT, "HEAD"], check=True, stdout=subprocess.DEVNULL)
+    subprocess.run(["git", "-C", WT, "checkout", "-q", "--detach", subprocess.run(["git", "-C", "/repo", "rev-parse", "HEAD"], stdout=subprocess.PIPE, text=True).stdout.strip()], check=True)
+TARGET = WT if LANE else "/repo"
+RUNDIR = LANE or "/verif"
+ENV = dict(os.environ, METAPYPE_REPO=WT, PYTHONPATH=WT + "/src") if LANE else dict(os.environ)
 for d in sorted(glob.glob("/verif/seeded/*/")):
     name = os.path.basename(d.rstrip("/"))
     if only and name not in only:
         continue
     meta = json.load(open(d + "meta.json"))
     checks = list(meta.get("checks_quick", {}).keys()) or [meta["property"]]
-    rc = subprocess.run(["git", "-C", "/repo", "apply", d + "patch.diff"]).returncode
+    rc = subprocess.run(["git", "-C", TARGET, "apply", d + "patch.diff"]).returncode
     if rc != 0:
         print(name, "patch does not apply"); continue
     res = {}
     try:
         for c in checks:
             t0 = time.time()
-            p = subprocess.run(["./check", c, "--tier", "quick"], cwd="/verif", stdout=subprocess.PIPE, stderr=subprocess.PIPE, text=True)
+            p = subprocess.run(["./check", c, "--tier", "quick"], cwd=RUNDIR, env=ENV, stdout=subprocess.PIPE, stderr=subprocess.PIPE, text=True)
             line = [l for l in p.stdout.split("\n") if l.startswith("VIOLATION")]
             why = [l.strip() for l in p.stderr.split("\n") if l.startswith("  ")][:1]
             res[c] = {"exit": p.returncode, "line": line[0] if line else None, "why": (why[0] if why else "")[:300], "wall_s": round(time.time() - t0, 1)}
     finally:
-        subprocess.run(["git", "-C", "/repo", "checkout", "--", "."])
+        subprocess.run(["git", "-C", TARGET, "checkout", "--", "."])
     meta["checks_quick"] = res
     json.dump(meta, open(d + "meta.json", "w"), indent=1)
     for c, r in res.items():
         kind = "missed" if r["exit"] == 0 else ("tie/proof broken, no failing input" if r["line"] and r["line"].endswith("no-failing-input-found") else "failing input")
         rows.append((name, c, kind, r["why"]))
         print(name, c, kind, r["why"][:100], flush=True)
-subprocess.run(["python3", "/verif/translator/gen_tables.py"], stdout=subprocess.DEVNULL)
+if not LANE:
+    subprocess.run(["python3", "/verif/translator/gen_tables.py"], stdout=subprocess.DEVNULL)
 with open("/verif/seeded/RESULTS.md", "w") as f:
     f.write("| seeded change | check | outcome | first line of the report |\n|---|---|---|---|\n")
     for r in rows:
